@@ -9,23 +9,26 @@ From SPV Require Import Base.Str Model.Leaf Model.LeafSpec Model.OptStr Model.De
    every conflict mode x generation mode x nested mode x dash variant x {ArgumentParser, parse()}, parsing [] either is refused with a
    ConflictResolutionError or delivers, at every destination, the caller's default instance / the constructor's own value.
    (C01_empty_defaults := forall c f, wf_forest f = true -> api_ok c f = true -> meets_C01 f (sp_parse_empty_gen c f).)
-   It is FALSE of the code as it is (faithful model): *)
+   It is FALSE of the code as it is (faithful model), because of ALWAYS_MERGE (known findings #19, #20, merged Optional members): *)
 Theorem C01_empty_defaults_refuted :
   ~ (forall c f, wf_forest f = true -> api_ok c f = true -> meets_C01 f (sp_parse_empty_gen c f)).
 Proof. exact empty_defaults_refuted. Qed.
 Print Assumptions C01_empty_defaults_refuted.
 
-(* #3  o: Optional[Leaf] = field(default_factory=Leaf) comes back None (AUTO, one destination; parse() too) *)
-Theorem C01_refuted_by_optional_member_default :
-  exists c f, wf_forest f = true /\ api_ok c f = true /\ p_mode c = MPlain CRAuto /\ ~ meets_C01 f (sp_parse_empty_gen c f).
-Proof. exact refuted_by_optional_member_default. Qed.
-Print Assumptions C01_refuted_by_optional_member_default.
+(* NONE / EXPLICIT / AUTO, every generation mode, nested mode, dash variant, both APIs: the full-strength statement holds
+   (#3, an Optional member whose default is an instance coming back None, is repaired: the regenerated guard looks at wrapper.defaults) *)
+Theorem C01_empty_defaults_plain_modes : forall c f m,
+  p_mode c = MPlain m -> wf_forest f = true -> api_ok c f = true -> meets_C01 f (sp_parse_empty_gen c f).
+Proof. exact plain_full. Qed.
+Print Assumptions C01_empty_defaults_plain_modes.
 
-(* #4  ALWAYS_MERGE, two destinations, xs: List[int] = [1, 2] is dealt out element-wise *)
-Theorem C01_refuted_by_dealt_list_default :
-  exists c f, wf_forest f = true /\ api_ok c f = true /\ ~ meets_C01 f (sp_parse_empty_gen c f).
-Proof. exact refuted_by_dealt_list_default. Qed.
-Print Assumptions C01_refuted_by_dealt_list_default.
+(* the former witnesses of #3 and #4 (corpus/C01) now satisfy the statement, through both merge models for #4 *)
+Theorem C01_repaired_witnesses :
+  meets_C01 forest_3 (sp_parse_empty_gen cfg_auto forest_3) /\ meets_C01 forest_3 (sp_parse_empty_gen cfg_parse forest_3)
+  /\ meets_C01 forest_4 (sp_parse_empty_gen cfg_merge forest_4)
+  /\ parse_merge_gen (option_strings (p_cfg cfg_merge)) forest_4 = Ok (spec_C01 forest_4).
+Proof. exact repaired_3_4. Qed.
+Print Assumptions C01_repaired_witnesses.
 
 (* #19 ALWAYS_MERGE, a default instance on one of two merged destinations leaks into the other *)
 Theorem C01_refuted_by_partial_default_instances :
